@@ -2630,9 +2630,16 @@ class Gen:
             if not _tw_inside(v) and k not in ('cur', 'set'):
                 k = 'set'
             if k == 'set':
-                n = self.pick(lambda n: _in_subtree(n, v.root) and n.t != ATTR and (v.accept(n) == FILTER_ACCEPT or r.random() < 0.1))
+                def clean(n):
+                    x = n
+                    while x is not None and x is not v.root:
+                        if v.accept(x, True) == FILTER_REJECT:
+                            return False
+                        x = x.parent
+                    return x is v.root
+                n = self.pick(lambda n: n.t != ATTR and clean(n) and (v.accept(n) == FILTER_ACCEPT or r.random() < 0.1))
                 if n is None:
-                    return None
+                    return self.emit('tw', None, [vid, 'release'])
                 return self.emit('tw', None, [vid, 'set', n.h])
             return self.emit('tw', None, [vid, k])
         if v.kind == 'L':
@@ -3274,10 +3281,14 @@ def _op_it(self, want, vid, what):
 
 # ---- TreeWalker (the algorithms of the DOM Traversal text as later spelled out by DOM4)
 def _tw_inside(v):
+    """current node inside the root subtree and not inside a subtree the filter REJECTs (DOM Traversal does not say how a walker
+    whose current node was put into a rejected subtree navigates; DOM4 and Xerces differ)"""
     x = v.cur
     while x is not None:
         if x is v.root:
             return True
+        if v.accept(x, True) == FILTER_REJECT:
+            return False
         x = x.parent
     return False
 
@@ -3398,7 +3409,7 @@ def _op_tw(self, want, vid, what, *a):
         v.cur = a[0]
         return e
     if not _tw_inside(v):
-        raise Undecided('current node outside the root of the TreeWalker')
+        raise Undecided('current node outside the root of the TreeWalker or inside a rejected subtree')
     if v.fk and (v.show & 0xFFF) != 0xFFF:
         e.quirks.append('treewalker-hidden-node-filter-reject')
     res = None
@@ -3940,6 +3951,17 @@ def _rg_insert(self, v, new, e, surround=False):
         raise Undecided('insertNode of the node that already sits at the start')
     if new.t == FRAG and (sc in new.kids):
         raise Undecided('insertNode of a fragment holding the container')
+    # the insertion itself behaves like Node.insertBefore, including the tree-level deviations of C13 (moving the document element,
+    # a fragment that exceeds the limits of a Document)
+    if parent.t == DOC and ((new.t in (ELEMENT, DOCTYPE) and new.parent is parent) or new.t == FRAG):
+        if sc.t in (TEXT, CDATA):
+            raise Undecided('insertNode splitting text under a document')
+        e2 = self.op_ins(None, parent, new, ref_now)
+        e.quirks.extend(e2.quirks)
+        e.cls = 'insertNode-container'
+        if e2.codes:
+            e.codes = e2.codes
+        return e
     if sc.t in (TEXT, CDATA):
         ref = _split_text(self, sc, so)
         e.cls = 'insertNode-text'
